@@ -90,6 +90,107 @@ impl J {
     }
 }
 
+/// inverse of `J::sexp` (used by --replay: key order and duplicate keys are preserved)
+fn j_of_sexp(text: &str) -> Option<J> {
+    fn tokens(text: &str) -> Vec<String> {
+        let mut out = Vec::new();
+        let mut cur = String::new();
+        for c in text.chars() {
+            match c {
+                '(' | ')' => {
+                    if !cur.is_empty() {
+                        out.push(std::mem::take(&mut cur));
+                    }
+                    out.push(c.to_string());
+                }
+                ' ' => {
+                    if !cur.is_empty() {
+                        out.push(std::mem::take(&mut cur));
+                    }
+                }
+                c => cur.push(c),
+            }
+        }
+        if !cur.is_empty() {
+            out.push(cur);
+        }
+        out
+    }
+    fn hex_str(t: &str) -> Option<String> {
+        String::from_utf8(unhex(t)?).ok()
+    }
+    fn parse(toks: &[String], pos: &mut usize) -> Option<J> {
+        let t = toks.get(*pos)?;
+        *pos += 1;
+        match t.as_str() {
+            "z" => Some(J::Null),
+            "t" => Some(J::Bool(true)),
+            "f" => Some(J::Bool(false)),
+            "(" => {
+                let head = toks.get(*pos)?.clone();
+                *pos += 1;
+                let result = match head.as_str() {
+                    "n" => {
+                        let v = toks.get(*pos)?.parse::<i64>().ok()?;
+                        *pos += 1;
+                        J::Num(v)
+                    }
+                    "r" => {
+                        let v = hex_str(toks.get(*pos)?)?;
+                        *pos += 1;
+                        J::Raw(v)
+                    }
+                    "s" => {
+                        let v = hex_str(toks.get(*pos)?)?;
+                        *pos += 1;
+                        J::Str(v)
+                    }
+                    "a" => {
+                        let mut xs = Vec::new();
+                        while toks.get(*pos)? != ")" {
+                            xs.push(parse(toks, pos)?);
+                        }
+                        J::Arr(xs)
+                    }
+                    "o" => {
+                        let mut kvs = Vec::new();
+                        while toks.get(*pos)? != ")" {
+                            if toks.get(*pos)? != "(" {
+                                return None;
+                            }
+                            *pos += 1;
+                            let k = hex_str(toks.get(*pos)?)?;
+                            *pos += 1;
+                            let v = parse(toks, pos)?;
+                            if toks.get(*pos)? != ")" {
+                                return None;
+                            }
+                            *pos += 1;
+                            kvs.push((k, v));
+                        }
+                        J::Obj(kvs)
+                    }
+                    _ => return None,
+                };
+                if toks.get(*pos)? != ")" {
+                    return None;
+                }
+                *pos += 1;
+                Some(result)
+            }
+            _ => None,
+        }
+    }
+    let toks = tokens(text);
+    let mut pos = 0;
+    let j = parse(&toks, &mut pos)?;
+    if pos == toks.len() {
+        Some(j)
+    } else {
+        None
+    }
+}
+
 fn s(x: &str) -> J {
     J::Str(x.to_owned())
 }
@@ -121,7 +222,7 @@ fn real_ser(cfg: &Configuration) -> Result<String, String> {
     }
 }
 
-const PROBE_LUA: &str = "--!keep this\n-- plain comment\nlocal function sideEffect() return true end\nassert(sideEffect(), 'm')\ndebug.profilebegin(sideEffect())\nlocal name = 'n'\nlocal s = `a{name}b`\nfoo = 1\nzed = foo\nlocal function named() return name end\nlocal m = require('./lib')\ndo end\nlocal unused = nil\nreturn _G.VALUE, VALUE, s, m, named, zed, name .. name .. name .. name .. name .. name .. name .. name .. name .. name .. name .. name .. name .. name\n";
+const PROBE_LUA: &str = "--!keep this\n-- plain comment\nlocal function sideEffect() return true end\nassert(sideEffect(), 'm')\ndebug.profilebegin(sideEffect())\nlocal name = 'n'\nlocal s = `a{name}b`\nfoo = 1\nzed = foo\na = 1\nb = a\nlocal function named() return name end\nlocal m = require('./lib')\ndo end\nlocal unused = nil\nreturn _G.VALUE, VALUE, s, m, named, zed, b, name .. name .. name .. name .. name .. name .. name .. name .. name .. name .. name .. name .. name .. name\n";
 const PROBE_ATTR: &str = "@native\nlocal function nat() return 1 end\n@checked\nlocal function chk() return 2 end\nreturn nat, chk\n";
 const PROBE_LIB: &str = "local lib = {}\nlib.x = 1 + 1\nreturn lib\n";
 
@@ -287,12 +388,13 @@ fn rule_variants(name: &str) -> Vec<Vec<(&'static str, J)>> {
             vec![("globals", arr_s(&[]))],
             vec![("globals", arr_s(&["$default"]))],
             vec![("globals", arr_s(&["$roblox"]))],
-            vec![("globals", arr_s(&["zed", "foo", "zed"]))],
+            vec![("globals", arr_s(&["b", "a", "b"]))],
+            vec![("globals", arr_s(&["b", "a", "zed"])), ("detect_globals", J::Bool(false))],
             vec![("include_functions", J::Bool(true))],
             vec![("include_functions", J::Bool(false))],
             vec![("detect_globals", J::Bool(false))],
             vec![("detect_globals", J::Bool(true))],
-            vec![("globals", arr_s(&["zed", "$roblox"])), ("include_functions", J::Bool(true)), ("detect_globals", J::Bool(false))],
+            vec![("globals", arr_s(&["a", "$roblox"])), ("include_functions", J::Bool(true)), ("detect_globals", J::Bool(false))],
         ],
         "inject_global_value" => {
             let id = ("identifier", s("VALUE"));
@@ -605,6 +707,20 @@ fn corruptions(base: &Case, all_property_keys: &[String], schema: &[(String, Str
                 J::Obj(kvs) => kvs[i].clone(),
                 _ => continue,
             };
+            // a string where only some strings are allowed: a wrong *value*
+            if matches!(key_name.as_str(), "location" | "strategy" | "name" | "require_mode" | "current" | "target" | "generator")
+                && matches!(current, J::Str(_))
+            {
+                let mut j = base.j.clone();
+                if let J::Obj(kvs) = get_mut(&mut j, p) {
+                    kvs[i].1 = s("zzz");
+                }
+                out.push(Case {
+                    j,
+                    origin: format!("{} + `{}` := \"zzz\"", base.origin, key_name),
+                    must_reject: Some("wrong-value".into()),
+                });
+            }
             for w in wrong_type_values(&current) {
                 // legitimate alternatives: string <-> array for filters; string <-> object for generator and
                 // require modes; null for the optional bundle / modules_identifier; anything for `value`
@@ -987,6 +1103,50 @@ fn f13_stale(first: &str, second: &str) -> Option<bool> {
 
 // ---------------------------------------------------------------------------------------------
 
+/// the probe project must react to every parameter the configurations vary, otherwise behavioural
+/// equality would be a weak judge; pairs that should behave differently are checked on every run
+fn probe_sensitivity(report: &mut Report) {
+    let pairs: &[(&str, &str)] = &[
+        ("{rules:['remove_comments']}", "{rules:[{rule:'remove_comments', except:['^--!']}]}"),
+        ("{rules:['remove_attribute']}", "{rules:[{rule:'remove_attribute', match:['native']}]}"),
+        ("{rules:['remove_assertions']}", "{rules:[{rule:'remove_assertions', preserve_arguments_side_effects:false}]}"),
+        ("{rules:['remove_debug_profiling']}", "{rules:[{rule:'remove_debug_profiling', preserve_arguments_side_effects:false}]}"),
+        ("{rules:['remove_interpolated_string']}", "{rules:[{rule:'remove_interpolated_string', strategy:'tostring'}]}"),
+        ("{rules:['rename_variables']}", "{rules:[{rule:'rename_variables', include_functions:true}]}"),
+        ("{rules:[{rule:'rename_variables', detect_globals:false}]}", "{rules:[{rule:'rename_variables', detect_globals:false, globals:['a','b']}]}"),
+        ("{rules:['rename_variables']}", "{rules:[{rule:'rename_variables', detect_globals:false}]}"),
+        ("{rules:[{rule:'inject_global_value', identifier:'VALUE', value:1}]}", "{rules:[{rule:'inject_global_value', identifier:'VALUE', value:'x'}]}"),
+        ("{rules:[{rule:'inject_global_value', identifier:'VALUE'}]}", "{rules:[{rule:'inject_global_value', identifier:'other'}]}"),
+        ("{rules:[{rule:'inject_global_value', identifier:'VALUE', env:'DLV_C19_UNSET_VARIABLE'}]}", "{rules:[{rule:'inject_global_value', identifier:'VALUE', env:'DLV_C19_UNSET_VARIABLE', default_value:3}]}"),
+        ("{rules:[{rule:'append_text_comment', text:'hi'}]}", "{rules:[{rule:'append_text_comment', text:'hi', location:'end'}]}"),
+        ("{rules:[{rule:'append_text_comment', text:'hi'}]}", "{rules:[{rule:'append_text_comment', file:'note.txt'}]}"),
+        ("{rules:[{rule:'convert_require', current:'path', target:'luau'}]}", "{rules:[{rule:'convert_require', current:'path', target:'roblox'}]}"),
+        ("{rules:[]}", "{rules:[], generator:'dense'}"),
+        ("{rules:[], generator:'dense'}", "{rules:[], generator:'readable'}"),
+        ("{rules:[], generator:'dense'}", "{rules:[], generator:{name:'dense', column_span:20}}"),
+        ("{rules:[]}", "{rules:[], bundle:{require_mode:'path'}}"),
+        ("{rules:[], bundle:{require_mode:'path'}}", "{rules:[], bundle:{require_mode:'path', modules_identifier:'__M'}}"),
+        ("{rules:[], bundle:{require_mode:'path'}}", "{rules:[], bundle:{require_mode:'path', excludes:['./lib']}}"),
+        ("{rules:['remove_empty_do']}", "{rules:[{rule:'remove_empty_do', skip_files:'**/b.lua'}]}"),
+        ("{rules:['remove_empty_do']}", "{rules:[{rule:'remove_empty_do', apply_to_files:'src/a.lua'}]}"),
+        ("{rules:['remove_empty_do']}", "{rules:['remove_empty_do'], skip_files:['src/b.*']}"),
+        ("{rules:['remove_empty_do']}", "{rules:['remove_empty_do'], apply_to_files:'**/a.lua'}"),
+    ];
+    for (a, b) in pairs {
+        match (real_de(a), real_de(b)) {
+            (Ok(ca), Ok(cb)) => {
+                if behaviour(ca) == behaviour(cb) {
+                    report.notes.push(format!("probe project does not tell `{}` from `{}`", a, b));
+                    report.count("probe_pairs_not_distinguished", 1);
+                } else {
+                    report.count("probe_pairs_distinguished", 1);
+                }
+            }
+            _ => report.notes.push(format!("probe pair not accepted: `{}` / `{}`", a, b)),
+        }
+    }
+}
+
 pub fn run(report: &mut Report, replay: Option<&str>) {
     report.rule = "Valid configurations: every rule name in string and object form x each property at default and \
         non-default values x filter forms (none/apply/skip/both; string, 1-array, n-array, empty array) x generator \
@@ -1000,11 +1160,25 @@ pub fn run(report: &mut Report, replay: Option<&str>) {
         let text = std::fs::read_to_string(path).unwrap_or_default();
         let v: Value = serde_json::from_str(&text).unwrap_or(Value::Null);
         let input = if v.get("input").is_some() { v["input"].clone() } else { v.clone() };
+        if input["kind"] == "pair" {
+            // two configurations that serialise alike: re-judge both
+            let mut groups = BTreeMap::new();
+            let mut outcomes = Vec::new();
+            for key in ["a", "b"] {
+                if let Some(value) = input[key].as_str().and_then(|t| json5::from_str::<Value>(t).ok()) {
+                    let case = Case { j: J::from_value(&value), origin: "replay-pair".into(), must_reject: None };
+                    outcomes.push(check_case(&case, &mut model));
+                }
+            }
+            settle(report, outcomes, &mut groups);
+            check_groups(report, &groups);
+            return;
+        }
         if let Some(cfg_text) = input["text"].as_str() {
-            if let Ok(value) = json5::from_str::<Value>(cfg_text) {
-                // note: duplicate keys cannot be rebuilt from a parsed value; the stored text is re-read
+            let tree = input["sexp"].as_str().and_then(j_of_sexp).or_else(|| json5::from_str::<Value>(cfg_text).ok().map(|v| J::from_value(&v)));
+            if let Some(tree) = tree {
                 let case = Case {
-                    j: J::from_value(&value),
+                    j: tree,
                     origin: input["origin"].as_str().unwrap_or("replay").to_owned(),
                     must_reject: input["must_reject"].as_str().map(|x| x.to_owned()),
                 };
@@ -1017,6 +1191,7 @@ pub fn run(report: &mut Report, replay: Option<&str>) {
         report.notes.push("replay file not understood; running the full check".into());
     }
     replay_known(report);
+    probe_sensitivity(report);
     // ---- the tables agree: rule names, property names
     let real_names: Vec<String> = darklua_core::rules::get_all_rule_names().iter().map(|x| x.to_string()).collect();
     let model_names: Vec<String> = model.ask("c19.names").split(' ').map(|x| x.to_owned()).collect();
@@ -1054,7 +1229,7 @@ pub fn run(report: &mut Report, replay: Option<&str>) {
     report.count("enumerated_valid_cases", valid.len() as u64);
     let mut rng = Rng::new(report.seed);
     let mut random_cases = Vec::new();
-    for _ in 0..(if thorough { 6000 } else { 600 }) {
+    for _ in 0..(if thorough { 40000 } else { 2500 }) {
         random_cases.push(random_valid_case(&mut rng, &real_names));
     }
     // ---- corruptions of a set of bases: one per rule family + generator/bundle/top-level shapes
